@@ -91,29 +91,29 @@ Section PageProofs.
     revert l. induction m as [|b m IH]; intros [|x l]; try reflexivity. cbn [map select]. destruct b; cbn [map]; rewrite IH; reflexivity.
   Qed.
 
-  Definition wf_page (p : bool * page) : Prop := fst p = true -> no_nulls (snd p).
+  Definition wf_page (p : pkind * page) : Prop := fst p = V1nodefi -> no_nulls (snd p).
 
-  Lemma page_rows_length (p : bool * page) : wf_page p -> page_rows V (fst p) (snd p) = length (snd p).
+  Lemma page_rows_length (p : pkind * page) : wf_page p -> page_rows V (fst p) (snd p) = length (snd p).
   Proof.
     destruct p as [nd pg]. unfold wf_page, page_rows. cbn [fst snd]. intros H. destruct nd.
     - rewrite <- (vals_no_nulls pg (H eq_refl)) at 2. rewrite map_length. reflexivity.
     - apply defi_length.
+    - reflexivity.
   Qed.
 
   (* what a page contributes: its selected cells *)
-  Lemma piece_is_select (p : bool * page) (pf : list bool) : wf_page p -> length pf = length (snd p) ->
-    (if fst p then map Some (select pf (vals_of V (snd p)))
-     else scatter V (select pf (defi_of V (snd p))) (select (select (defi_of V (snd p)) pf) (vals_of V (snd p))))
-    = select pf (snd p).
+  Lemma piece_is_select (p : pkind * page) (pf : list bool) : wf_page p -> length pf = length (snd p) ->
+    page_piece V (fst p) pf (snd p) = select pf (snd p).
   Proof.
-    destruct p as [nd pg]. unfold wf_page. cbn [fst snd]. intros H L. destruct nd.
+    destruct p as [nd pg]. unfold wf_page, page_piece. cbn [fst snd]. intros H L. destruct nd.
     - rewrite <- select_map. rewrite (vals_no_nulls pg (H eq_refl)). reflexivity.
     - apply scatter_select. exact L.
+    - reflexivity.
   Qed.
 
   (* ---------- the page loop -------------------------------------------------------------------- *)
 
-  Definition cells (pages : list (bool * page)) : list (cellv V) := List.concat (map snd pages).
+  Definition cells (pages : list (pkind * page)) : list (cellv V) := List.concat (map snd pages).
 
   Definition inv (rows : nat) (rf : list bool) (done : list (cellv V)) (s : st V) : Prop :=
     index_off V s = length done /\
@@ -194,7 +194,7 @@ Section PageProofs.
   Qed.
 
   (* C13_mask_pages *)
-  Theorem read_col_masked_spec : forall (pages : list (bool * page)) (rf : list bool),
+  Theorem read_col_masked_spec : forall (pages : list (pkind * page)) (rf : list bool),
     Forall wf_page pages -> length rf = length (cells pages) ->
     read_col_masked V rf pages = Some (map W (select rf (cells pages))).
   Proof.
@@ -210,22 +210,22 @@ End PageProofs.
 (* the loop of the pinned tree: a chunk of two pages whose first page holds no selected row ends with
    the output untouched; and with a NULL before a page boundary the mask offset falls behind *)
 Theorem read_col_masked_pinned_refuted :
-  exists (pages : list (bool * page Z)) (rf : list bool),
+  exists (pages : list (pkind * page Z)) (rf : list bool),
     Forall (wf_page Z) pages /\ length rf = length (cells Z pages) /\
     read_col_masked_pinned Z rf pages = Some [Uninit; Uninit] /\
     select rf (cells Z pages) = [Some 3%Z; Some 4%Z].
 Proof.
-  exists [(false, [Some 1%Z; Some 2%Z]); (false, [Some 3%Z; Some 4%Z])], [false; false; true; true].
+  exists [(V1defi, [Some 1%Z; Some 2%Z]); (V1defi, [Some 3%Z; Some 4%Z])], [false; false; true; true].
   split; [repeat constructor; intros; discriminate|]. split; [reflexivity|]. split; vm_compute; reflexivity.
 Qed.
 
 Theorem read_col_masked_pinned_nulls_refuted :
-  exists (pages : list (bool * page Z)) (rf : list bool),
+  exists (pages : list (pkind * page Z)) (rf : list bool),
     Forall (wf_page Z) pages /\ length rf = length (cells Z pages) /\
     read_col_masked_pinned Z rf pages = Some [W None; W (Some 1%Z); W (Some 2%Z)] /\
     select rf (cells Z pages) = [None; Some 1%Z; Some 3%Z].
 Proof.
-  exists [(false, [None; Some 1%Z]); (false, [Some 2%Z; Some 3%Z])], [true; true; false; true].
+  exists [(V1defi, [None; Some 1%Z]); (V1defi, [Some 2%Z; Some 3%Z])], [true; true; false; true].
   split; [repeat constructor; intros; discriminate|]. split; [reflexivity|]. split; vm_compute; reflexivity.
 Qed.
 
